@@ -3,6 +3,7 @@
 //! Output, one line per `L`: `C|I <nf> <fn> <id|-> <fill> <msgtype> <message 0|1> <data hex> <msgdbg-hash>` |
 //! (followed by the decoded variant name, the channel as a code point or `-`, talker id and report type) |
 //! `E nmea` | `E checksum <expected> <found>` | `P <panic message>`.
+//! `U <fill> <hex bytes>` calls `ais::messages::unarmor` directly and prints `O <hex result>` | `E nmea` | `P <panic message>`.
 #[cfg(kani)]
 fn main() {}
 
@@ -45,7 +46,27 @@ fn main() {
             continue;
         }
         let mut it = l.split_whitespace();
-        it.next();
+        let cmd = it.next();
+        if cmd == Some("U") {
+            let fill: usize = it.next().unwrap().parse().unwrap();
+            let data = unhex(it.next().unwrap_or("-"));
+            let r = std::panic::catch_unwind(|| ais::messages::unarmor(&data, fill));
+            match r {
+                Err(e) => {
+                    let msg = if let Some(s) = e.downcast_ref::<&str>() {
+                        s.to_string()
+                    } else if let Some(s) = e.downcast_ref::<String>() {
+                        s.clone()
+                    } else {
+                        "panic".to_string()
+                    };
+                    println!("P {}", msg.replace('\n', " "));
+                }
+                Ok(Err(_)) => println!("E nmea"),
+                Ok(Ok(v)) => println!("O {}", hex(&v)),
+            }
+            continue;
+        }
         let decode = it.next().unwrap() == "1";
         let line = unhex(it.next().unwrap_or("-"));
         let r = std::panic::catch_unwind(std::panic::AssertUnwindSafe(|| parser.parse(&line, decode)));
